@@ -43,6 +43,7 @@ type Profile struct {
 	GasSweep    bool     // some txs get a gas limit that runs out at an ante / message boundary
 	MultiPct    int      // percent of txs with several messages (default 10)
 	ManyDenoms  bool     // genesis balances in additional denominations sorting before, around and after the native one
+	PExecTail   int      // percent of multi-message txs whose messages after the first are nested in a MsgExec of the first signer
 	PRetry      int      // percent of record/purchase operations that retry an earlier rolled-back attempt (same party, same identifier)
 	PForward    int      // percent of follow-up messages after a registration that use that registration (forward reference)
 	PFeePayer   int      // percent of txs with an explicit co-signing fee payer (AuthInfo.Fee.Payer)
@@ -563,7 +564,9 @@ func GenScenario(t *rapid.T, p *Profile) *Scenario {
 			if pct(t, p.PFault, "fault") {
 				tx.Fault = uniRange(t, 1, 4, "faultKind")
 			}
-			if pct(t, p.PExec, "exec") {
+			if len(tx.Ops) >= 2 && pct(t, p.PExecTail, "execTail") {
+				tx.Wrap = WrapExecTail
+			} else if pct(t, p.PExec, "exec") {
 				tx.Wrap = pick(t, []int{WrapExec, WrapExec, WrapExec, WrapExec2}, "wrap")
 				tx.Grantee = -1
 				if !tx.Check && uni(t, 2, "execNoFee") == 1 {
